@@ -243,8 +243,9 @@ def _grid(tier, seed):
     cfgs = []
     S = 600 if tier == "quick" else 2000
     idx = 0
-    for p in [2, 3, 4, 5, 6, 7, 8, 20, 60]:
-        ks = [h / 2.0 for h in range(0, 2 * (p - 1) + 1)] if p <= 8 else [0, 0.5, 2, 3.7, p / 2.0, p - 1]
+    for p in [2, 3, 4, 5, 6, 7, 8, 20, 60, 150, 250]:
+        ks = [h / 2.0 for h in range(0, 2 * (p - 1) + 1)] if p <= 8 else [0, 0.5, 2, 3.7, p / 2.0, p - 1] if p <= 60 else [p * 0.08, 3.0]
+        # p = 150 / 250 with k/(p-1) below 0.1: large *sparse* graphs (where an implementation may sample edge slots directly)
         for ki, k in enumerate(ks):
             ranges = (RANGES if tier == "thorough" else [RANGES[(ki + p) % 4], RANGES[4 + (ki % 2)]] if ki % 3 == 0
                       else [RANGES[(ki + p) % 4], RANGES[6 + (ki + p) % 3]] if ki % 3 == 1 else [RANGES[(ki + p) % 4]])
